@@ -119,6 +119,22 @@ fn main() { for i in 0..N { spawn w(i); } let c = 0; while c < 200 { c = c + 1; 
 	{name: "spawn-try", endless: true, vmOnly: true, check: noOutput, src: `
 fn w(id: int) { try { loop { let a = 1; } } catch e { println("caught", id); } }
 fn main() { for i in 0..N { spawn w(i); } try { time.sleep(20.0); } catch e { println("caught main"); } }`},
+	{name: "recursion-fanout", endless: true, check: noOutput, src: `
+fn fib(n: int) -> int { if n < 2 { n } else { fib(n - 1) + fib(n - 2) } }
+fn main() { println(fib(70)); }`},
+	{name: "recursion-fanout-in-try", endless: true, check: noOutput, src: `
+fn walk(n: int) -> int { if n == 0 { 1 } else { walk(n - 1) + walk(n - 1) + walk(n - 1) } }
+fn main() { try { println(walk(50)); } catch e { println("caught"); } }`},
+	{name: "spawn-recursion-fanout", endless: true, vmOnly: true, check: noOutput, src: `
+fn fib(n: int) -> int { if n < 2 { n } else { fib(n - 1) + fib(n - 2) } }
+fn w(id: int) { println(fib(70)); }
+fn main() { for i in 0..N { spawn w(i); } }`},
+	{name: "spawn-tree", endless: true, vmOnly: true, check: noOutput, src: `
+fn node(d: int) {
+    if d > 0 { spawn node(d - 1); spawn node(d - 1); }
+    loop { time.sleep(0.01); }
+}
+fn main() { node(N + 3); }`},
 	{name: "spawn-late", endless: true, vmOnly: true, check: perWorker, src: `
 fn w(id: int) { let i = 0; loop { println("w", id, i); i = i + 1; time.sleep(0.01); } }
 fn main() { for i in 0..N { time.sleep(0.013); spawn w(i); } loop { let z = 0; } }`},
